@@ -311,6 +311,26 @@ func movedJustifications(p *prog.Program, obs []report.Obligation, stale []strin
 		}
 		return t[:i+1] + "_" + t[j:]
 	}
+	// a map store `<base>[<key>] = <value>` without its base operand
+	storeShape := func(t string) string {
+		k := strings.Index(t, "] = ")
+		if k < 0 {
+			return ""
+		}
+		depth := 0
+		for j := k; j >= 0; j-- {
+			switch t[j] {
+			case ']':
+				depth++
+			case '[':
+				depth--
+				if depth == 0 {
+					return "_" + t[j:]
+				}
+			}
+		}
+		return ""
+	}
 	staleSet := map[string]bool{}
 	for _, s := range stale {
 		staleSet[s] = true
@@ -367,7 +387,7 @@ func movedJustifications(p *prog.Program, obs []report.Obligation, stale []strin
 			}
 			fid, et := term(e.Key)
 			msg := "justified entry matches no undischarged obligation: " + e.Rule + " " + e.Key
-			if (et != t && shape(et) != shape(t)) || !staleSet[msg] {
+			if (et != t && shape(et) != shape(t) && (storeShape(et) == "" || storeShape(et) != storeShape(t))) || !staleSet[msg] {
 				continue
 			}
 			f := p.Func(fid)
